@@ -104,6 +104,10 @@ def decode(sx, case):
     return d
 
 
+def for_model(case, res):
+    return RT.for_model(case, res)
+
+
 def project(case, res, dec=None):
     p = RT.project(case, res, dec)
     if "eval1" in res:
